@@ -142,9 +142,9 @@ def run(ctx):
                         rep.ob("C04.writer", key + "|raw|tbs", n["fn"] == SIGN_DER, "the TBS is embedded raw only by sign_der", found=n["fn"], sp=n.get("sp"))
                     else:
                         pl = places(n["v"])
-                        allowed = [{"self.custom_extensions[]"}, {"attrs[].values"}]
+                        allowed = [{"self.custom_extensions[]"}, {"self.custom_extensions[].content"}, {"attrs[].values"}]
                         ok = pl in allowed and not _edited(n["v"])
-                        rep.ob("C04.writer", key + "|raw|" + "+".join(sorted(pl)), ok, "caller-supplied DER is embedded byte-for-byte (argument is the caller's field, unmodified)", expected=[sorted(a) for a in allowed], found=core(n["v"]).r(), sp=n.get("sp"))
+                        rep.ob("C04.writer", key + "|raw|" + "+".join(sorted(x.replace("[].content", "[]") for x in pl)), ok, "caller-supplied DER is embedded byte-for-byte (argument is the caller's field, unmodified)", expected=[sorted(a) for a in allowed], found=core(n["v"]).r(), sp=n.get("sp"))
             if art.fn == CSR_FN:
                 kids = S.flatten(art.tbs[0]["c"])
                 attrs = [k for k in kids if k[2]["t"] == "Tagged"]
